@@ -42,6 +42,15 @@ METHODS = {
     'wrapped': [([1], {}), ([], {'a': 2}), ([], {})],
     'rpc.ext': [([1], {}), ([], {'a': 2}), ([], {})],
     'js.tag': [(['x'], {}), ([], {'t': 'y', 'n': 2}), ([5], {}), ([], {'t': None})],
+    # remote method names that coincide with public names of the client-side objects (a proxy resolves ANY public name remotely; the batch
+    # proxy's own `call` is the one documented exception and is not used here): unregistered on the server, so each is answered -32601
+    'client': [([41], {}), ([], {'x': 41})],
+    'batch': [([], {}), ([1], {})],
+    'send': [([1], {})],
+    'notify': [([], {'a': 1})],
+    'proxy': [([], {})],
+    'strict': [([1], {})],
+    'method': [([], {}), ([2], {})],
 }
 
 
